@@ -175,12 +175,20 @@ def judge(run, results, what):
         by[cid] = (meta, events, fails)
     if not cases:
         return 0
-    rejects, r = tlc.batch_validate("Trace_ModelCache", "Trace_ModelCache", cases, tag="c17")
+    # self-test of the binding: a corrupted result and a dropped event must both be rejected
+    st = _selftest_cases(cases)
+    rejects, r = tlc.batch_validate("Trace_ModelCache", "Trace_ModelCache", cases + st, tag="c17")
     run.add_mc(r, "Trace_ModelCache_" + what)
     run.add_traces(len(cases))
     rejects = [(v[1], v[2], v[3:]) for v in cc.printed_tuples(r.raw, "REJECT")]
+    got = {x[0] for x in rejects}
+    for c in st:
+        if c["id"] not in got:
+            raise tlc.TLCError("binding self-test: %s was not rejected by Trace_ModelCache" % c["id"])
+    run.note("binding_selftest_" + what, "%d corrupted/dropped-event traces rejected" % len(st))
+    rejects = [x for x in rejects if not x[0].startswith("selftest")]
     for v in cc.printed_tuples(r.raw, "DIVERGE"):
-        if True:
+        if not v[1].startswith("selftest"):
             meta, events, _ = by[v[1]]
             run.divergence("model_divergence", {"case": v[1], "target": meta["target"], "clause": v[2],
                                                 "event": v[3], "path": meta["path"]})
@@ -190,6 +198,8 @@ def judge(run, results, what):
         why, at = (rest + ["?", 0])[:2]
         ev = events[at - 1] if 0 < at <= len(events) else {}
         sig = "C17:%s:%s" % (clause, why)
+        if meta["kind"] == "shipped":
+            sig = "C17:shipped-package-cache:%s" % clause
         detail = ""
         if clause == "run-failed":
             f = next((x for x in fails if x["event"] == at - 1), None) or (fails[0] if fails else {})
@@ -205,6 +215,24 @@ def judge(run, results, what):
                  {"target": meta["target"], "mode": meta["mode"], "path": meta["path"], "events": events,
                   "fails": fails, "clause": clause, "why": why, "at": at})
     return nrej
+
+
+def _selftest_cases(cases):
+    out = []
+    for c in cases:
+        ev = c["events"]
+        k = next((i for i, e in enumerate(ev) if e["nx"] == "done" and e["res"]), None)
+        if k is None:
+            continue
+        bad = [dict(e) for e in ev]
+        bad[k]["res"] = []
+        out.append({"id": "selftest-corrupt", "events": bad})
+        j = max(i for i in range(k + 1) if ev[i]["a"] in ("start", "reload", "load", "rload", "crashload"))
+        if j != k:
+            out.append({"id": "selftest-drop", "events": [dict(e) for i, e in enumerate(ev) if i != j]})
+        if len(out) >= 2:
+            break
+    return out
 
 
 def _short(path, at, events):
